@@ -152,7 +152,8 @@ def main() -> None:
     doms = run_driver([[A("cfg"), srcm_side(p)] for _, p in cases])
     cases = [c for c, d in zip(cases, doms) if d["r"] == "ok"]
     run.count("in-domain", len(cases))
-    texts = [print_prog(p) for _, p in cases]
+    # macro definitions before, between and after the routines (every other program: interleaved at random)
+    texts = [print_prog(p, mix=random.Random(f"C05-mix-{run.seed}-{k}") if k % 2 else None) for k, (_, p) in enumerate(cases)]
     results = run_impl([("compile", t) for t in texts])
     idx = [i for i, r in enumerate(results) if r["ok"]]
     eqs = dict(zip(idx, run_driver([[A("equiv"), srcm_side(cases[i][1]), ssb_side(results[i]["ops"])] for i in idx])))
